@@ -295,3 +295,38 @@ func Trunc(s string, n int) string {
 	}
 	return s
 }
+
+// SrcsetCandidates parses a srcset attribute the way the HTML standard does (a URL is a run of
+// non-whitespace characters, trailing commas end the candidate; otherwise descriptors follow up
+// to the next comma) and returns the candidate URLs.
+func SrcsetCandidates(v string) []string {
+	var out []string
+	i := 0
+	isSp := func(b byte) bool { return b == ' ' || b == '\t' || b == '\n' || b == '\r' || b == '\f' }
+	for i < len(v) {
+		for i < len(v) && (isSp(v[i]) || v[i] == ',') {
+			i++
+		}
+		if i >= len(v) {
+			break
+		}
+		j := i
+		for j < len(v) && !isSp(v[j]) {
+			j++
+		}
+		url := v[i:j]
+		i = j
+		if strings.HasSuffix(url, ",") {
+			url = strings.TrimRight(url, ",")
+		} else {
+			// descriptors up to the next comma
+			for i < len(v) && v[i] != ',' {
+				i++
+			}
+		}
+		if url != "" {
+			out = append(out, url)
+		}
+	}
+	return out
+}
